@@ -408,6 +408,10 @@ func runWorldB(rc *RunCtx, prop string) *RunResult {
 		k.Go(fmt.Sprintf("c%d", c), func() { w.clientTask(c, nClients, opsPerDID) })
 	}
 
+	k.Cleanup = func() {
+		w.writer.Stop()
+		w.obs.Stop()
+	}
 	k.SetCur("W")
 	w.writer.Start()
 	k.Settle()
